@@ -189,39 +189,47 @@ Record frec := {
   vcalls    : nat;      (* device calls made by HIupdate_version's Hputelement (outside this model) *)
   file_open : bool;     (* file_rec->file != NULL *)
   writable  : bool;     (* file_rec->access & DFACC_WRITE *)
-  own_aid   : bool      (* an access record started through this very file id is still attached *)
+  own_aid   : bool;     (* an access record started through this very file id is still attached *)
+  nb_published : bool;  (* HTInew_dd_block: the new block has been linked into the in-memory list *)
+  nb_freed     : bool   (* HTInew_dd_block: the new block has been freed by the error clean-up *)
 }.
 
 Definition set_pos (s : frec) (off : Z) (op : lastop) : frec :=
   {| cur_off := off; last_op := op; end_off := end_off s; cache := cache s; dirty_dd := dirty_dd s;
      dirty_end := dirty_end s; blocks := blocks s; cursor := cursor s; refcount := refcount s; attach := attach s;
      vmod := vmod s; vcalls := vcalls s; file_open := file_open s;
-     writable := writable s; own_aid := own_aid s |}.
+     writable := writable s; own_aid := own_aid s;
+     nb_published := nb_published s; nb_freed := nb_freed s |}.
 Definition set_dirty (s : frec) (dd de : bool) : frec :=
   {| cur_off := cur_off s; last_op := last_op s; end_off := end_off s; cache := cache s; dirty_dd := dd;
      dirty_end := de; blocks := blocks s; cursor := cursor s; refcount := refcount s; attach := attach s;
      vmod := vmod s; vcalls := vcalls s; file_open := file_open s;
-     writable := writable s; own_aid := own_aid s |}.
+     writable := writable s; own_aid := own_aid s;
+     nb_published := nb_published s; nb_freed := nb_freed s |}.
 Definition set_blocks (s : frec) (bs : list blk) (c : nat) : frec :=
   {| cur_off := cur_off s; last_op := last_op s; end_off := end_off s; cache := cache s; dirty_dd := dirty_dd s;
      dirty_end := dirty_end s; blocks := bs; cursor := c; refcount := refcount s; attach := attach s;
      vmod := vmod s; vcalls := vcalls s; file_open := file_open s;
-     writable := writable s; own_aid := own_aid s |}.
+     writable := writable s; own_aid := own_aid s;
+     nb_published := nb_published s; nb_freed := nb_freed s |}.
 Definition set_ref (s : frec) (r : Z) : frec :=
   {| cur_off := cur_off s; last_op := last_op s; end_off := end_off s; cache := cache s; dirty_dd := dirty_dd s;
      dirty_end := dirty_end s; blocks := blocks s; cursor := cursor s; refcount := r; attach := attach s;
      vmod := vmod s; vcalls := vcalls s; file_open := file_open s;
-     writable := writable s; own_aid := own_aid s |}.
+     writable := writable s; own_aid := own_aid s;
+     nb_published := nb_published s; nb_freed := nb_freed s |}.
 Definition set_vmod (s : frec) (v : bool) : frec :=
   {| cur_off := cur_off s; last_op := last_op s; end_off := end_off s; cache := cache s; dirty_dd := dirty_dd s;
      dirty_end := dirty_end s; blocks := blocks s; cursor := cursor s; refcount := refcount s; attach := attach s;
      vmod := v; vcalls := vcalls s; file_open := file_open s;
-     writable := writable s; own_aid := own_aid s |}.
+     writable := writable s; own_aid := own_aid s;
+     nb_published := nb_published s; nb_freed := nb_freed s |}.
 Definition set_open (s : frec) (b : bool) : frec :=
   {| cur_off := cur_off s; last_op := last_op s; end_off := end_off s; cache := cache s; dirty_dd := dirty_dd s;
      dirty_end := dirty_end s; blocks := blocks s; cursor := cursor s; refcount := refcount s; attach := attach s;
      vmod := vmod s; vcalls := vcalls s; file_open := b;
-     writable := writable s; own_aid := own_aid s |}.
+     writable := writable s; own_aid := own_aid s;
+     nb_published := nb_published s; nb_freed := nb_freed s |}.
 
 Definition lastop_eqb (a b : lastop) : bool :=
   match a, b with
@@ -333,6 +341,63 @@ Definition Hclose_prog_orig : P :=
 
 (** Hsync *)
 Definition Hsync_prog : P := Seq (If (fun s => Z.eqb (refcount s) 0) Fail Skip) (Call "HIsync" HIsync_prog).
+
+(** ---- DD-block growth and descriptor update (hfile.c HPgetdiskblock, hfiledd.c HTIupdate_dd / HTInew_dd_block) ---- *)
+Definition set_end (s : frec) (e : Z) : frec :=
+  {| cur_off := cur_off s; last_op := last_op s; end_off := e; cache := cache s; dirty_dd := dirty_dd s;
+     dirty_end := dirty_end s; blocks := blocks s; cursor := cursor s; refcount := refcount s; attach := attach s;
+     vmod := vmod s; vcalls := vcalls s; file_open := file_open s; writable := writable s; own_aid := own_aid s;
+     nb_published := nb_published s; nb_freed := nb_freed s |}.
+Definition set_nb (s : frec) (pub fr : bool) : frec :=
+  {| cur_off := cur_off s; last_op := last_op s; end_off := end_off s; cache := cache s; dirty_dd := dirty_dd s;
+     dirty_end := dirty_end s; blocks := blocks s; cursor := cursor s; refcount := refcount s; attach := attach s;
+     vmod := vmod s; vcalls := vcalls s; file_open := file_open s; writable := writable s; own_aid := own_aid s;
+     nb_published := pub; nb_freed := fr |}.
+
+(** HPgetdiskblock: reserve [size] bytes at the end of the file; written through only when not caching *)
+Definition HPgetdiskblock_prog (size : frec -> Z) (moveto : bool) : P :=
+  Seq (If (fun s => Z.ltb (size s) 0) Fail Skip)
+ (Seq (If (fun s => Z.ltb 0 (size s))
+          (If cache (Upd (fun s => set_dirty s (dirty_dd s) true))
+                    (Seq (Call "HPseek" (HPseek_prog (fun s => end_off s + size s - 1)))
+                         (Call "HP_write" (HP_write_prog (fun _ => 1)))))
+          Skip)
+ (Seq (if moveto then Call "HPseek" (HPseek_prog end_off) else Skip)
+      (Upd (fun s => set_end s (end_off s + size s))))).
+
+(** HTIupdate_dd: one descriptor, written through only when not caching *)
+Definition HTIupdate_dd_prog (off : frec -> Z) : P :=
+  If cache (Upd (fun s => set_dirty s true (dirty_end s)))
+           (Seq (Call "HPseek" (HPseek_prog off)) (Call "HP_write" (HP_write_prog (fun _ => DD_SZ)))).
+
+(** HTInew_dd_block: room at the end of the file, header, NIL descriptors, THEN the block is linked into the
+    in-memory list, and finally (not caching) the previous block's link field in the file is updated.  The error
+    clean-up at `done:` is regenerated from the source: does it free the block? *)
+Definition nb_size (s : frec) : Z := NDDS_SZ + OFFSET_SZ + b_ndds (nth 0 (blocks s) {| b_off := 0; b_dirty := false; b_ndds := 0 |}) * DD_SZ.
+Definition last_blk (s : frec) : blk := last (blocks s) {| b_off := 0; b_dirty := false; b_ndds := 0 |}.
+Definition publish_block (s : frec) : frec :=
+  let nb := {| b_off := end_off s - nb_size s; b_dirty := cache s; b_ndds := b_ndds (nth 0 (blocks s) (last_blk s)) |} in
+  let old := if cache s
+             then removelast (blocks s) ++ [ {| b_off := b_off (last_blk s); b_dirty := true; b_ndds := b_ndds (last_blk s) |} ]
+             else blocks s in
+  set_nb (set_blocks (set_dirty s (dirty_dd s || cache s) (dirty_end s)) (old ++ [nb]) (cursor s)) true (nb_freed s).
+Definition link_field_off (s : frec) : Z :=      (* link field of the block that was last before the new one *)
+  b_off (nth (Nat.pred (Nat.pred (List.length (blocks s)))) (blocks s) (last_blk s)) + NDDS_SZ.
+
+Definition HTInew_dd_block_prog : P :=
+  OnFail
+    (Seq (Call "HPgetdiskblock" (HPgetdiskblock_prog nb_size true))
+    (Seq (If cache (Upd (fun s => set_dirty s true (dirty_end s))) Skip)
+    (Seq (Call "HP_write" (HP_write_prog (fun _ => NDDS_SZ + OFFSET_SZ)))
+    (Seq (Call "HP_write" (HP_write_prog (fun s => nb_size s - (NDDS_SZ + OFFSET_SZ))))
+    (Seq (Upd publish_block)
+    (Seq (If cache Skip
+             (Seq (Call "HPseek" (HPseek_prog link_field_off)) (Call "HP_write" (HP_write_prog (fun _ => OFFSET_SZ)))))
+         (Upd (fun s => set_end s (b_off (last_blk s) + nb_size s)))))))))
+    (if fact_HTInew_dd_block_cleanup_frees_block then Upd (fun s => set_nb s (nb_published s) true) else Skip).
+
+(** the hazard of that clean-up: a block that is reachable from the list has been freed *)
+Definition nb_dangling (s : frec) : bool := nb_published s && nb_freed s.
 
 (** a fault plan as the harness issues it: call k fails (single), or call k and every later one (sticky) *)
 Definition plan (k : nat) (sticky : bool) (horizon : nat) : oracle :=
